@@ -128,6 +128,26 @@ def date_and_ints(vc):
         vc.check('%s/identity-on-integers' % cls.__name__, sym.lift(r) == n)
 
 
+@harness('C36', 'Decimal', functions=[C + 'Decimal.validate', C + 'Decimal.to_database'], native='contracts.native.c36:replay')
+def decimal_column(vc):
+    """for decimals of 1..40 significant digits (beyond the 28 of the default arithmetic context), given as Decimal, str or int: ensures to_database returns exactly that decimal (same sign,
+    digits and exponent) - what cqltypes.DecimalType.serialize then encodes digit for digit; a float is taken at its repr"""
+    import decimal
+    from cassandra.cqlengine import columns
+    text = vc.choice('value', ['0', '-1.50', '1E+20', '1.2345678901234567890123456789012345', '-0.' + '1234567890' * 4, str(10 ** 30 + 1), '98765432109876543210987654321098765.4321'])
+    form = vc.choice('given_as', ['Decimal', 'str', 'int-if-integral'])
+    want = decimal.Decimal(text)
+    v = want if form == 'Decimal' else (text if form == 'str' else (int(want) if want == want.to_integral_value() and 'E' not in text and '.' not in text else None))
+    if v is None:
+        return
+    col = vc.obj(columns.Decimal, column_name='d', default=None, required=False)
+    vc.stub(C + 'Column.validate', lambda self, x: x)
+    r = vc.call(C + 'Decimal.to_database', col, v)
+    vc.check('decimal/exactly-the-given-digits', isinstance(r, decimal.Decimal) and r.as_tuple() == (want if form != 'int-if-integral' else decimal.Decimal(int(want))).as_tuple())
+    f = vc.call(C + 'Decimal.to_database', col, 0.1)
+    vc.check('decimal/float-taken-at-its-repr', f == decimal.Decimal('0.1'))
+
+
 def columns_versus_core(tier, seed):
     from contracts.native import c36
     return c36.columns_vs_core(tier, seed)
